@@ -209,7 +209,8 @@ class Check:
         for m in re.finditer(r"AUDIT (\S+) ::([^\n]*)", r.stdout):
             name, axs = m.group(1), m.group(2).split()
             rel = name[len(ns) + 1:]
-            if "." in rel:  # equation lemmas etc. of local definitions
+            # theorems of nested namespaces count; auto-generated lemmas of local definitions (equation lemmas, matchers …) do not
+            if re.search(r"(^|\.)(eq_\d+|eq_def|match_\d+\S*|proof_\d+|sizeOf_spec|injEq|inj|congr_simp|_\S*)$", rel):
                 continue
             obligations.append({"theorem": name, "axioms": axs})
         if r.returncode != 0 or not obligations:
